@@ -198,6 +198,30 @@ def argv_of(opts, model_path=None):
 # ----------------------------------------------------------------------------------------
 # generation
 
+def _forward_references(rng, node):
+    """Re-target some atomic branches at ANY variable of the tree, so that a reference (possibly through an inverted
+    role) can precede the definition of its node (random_tree_node alone only refers backwards)."""
+    allvars = []
+
+    def collect(n):
+        allvars.append(n[0])
+        for _, t in n[1]:
+            if isinstance(t, tuple):
+                collect(t)
+    collect(node)
+
+    def rebuild(n):
+        bs = []
+        for r, t in n[1]:
+            if isinstance(t, tuple):
+                t = rebuild(t)
+            elif r != '/' and rng.random() < .3:
+                t = rng.choice(allvars)
+            bs.append((r, t))
+        return (n[0], bs)
+    return rebuild(node)
+
+
 def gen_stream(rng, model_name, canonicalize=False):
     """1-4 well-formed graphs with metadata, as text."""
     import penman
@@ -217,11 +241,14 @@ def gen_stream(rng, model_name, canonicalize=False):
     texts = []
     for _ in range(rng.randint(1, 4)):
         node = gen.random_tree_node(rng, gen.fresh_vars(), maxdepth=rng.choice([1, 2, 3]), wf=True,
-                                    roles=amr_roles, atoms=['x', 'y', '-', '"s t"', '"(~)"', '1', '2.5', 'dog', 'have-mod-91', 'have-quant-91'])
+                                    roles=amr_roles, atoms=['x', 'y', '-', '"s t"', '"(~)"', '1', '2.5', 'dog', 'have-mod-91', 'have-quant-91',
+                                                            '"u\u2028v"', '"w\x0bx \x85y\x1c"'])
+        if rng.random() < .35:
+            node = _forward_references(rng, node)
         meta = {}
         if rng.random() < .5:
             for k in rng.sample(['id', 'snt', 'k'], rng.randint(1, 2)):
-                meta[k] = rng.choice(['1', 'foo bar', '', 'a ; (b) "c" #d', 'x  y'])
+                meta[k] = rng.choice(['1', 'foo bar', '', 'a ; (b) "c" #d', 'x  y', 'p\u2028q \x0c r\x85s'])
         t = Tree(node, metadata=meta)
         g = penman.interpret(t)
         if len(set(g.triples)) != len(g.triples):
